@@ -30,6 +30,7 @@ type ModelState struct {
 		Ch  []int    `json:"ch"`
 		Evs []string `json:"evs"`
 	} `json:"blocks"`
+	Tag string `json:"tag,omitempty"` // set for DAGs found by the harness's own generator: no expected blocks, the trace specification decides
 }
 
 type stateMismatch struct {
@@ -204,6 +205,10 @@ func CmdReplayStates(args []string, seed int64) int {
 			stats["plays"]++
 			if critical {
 				add(stateMismatch{Kind: "critical-error", State: st, Order: order})
+				continue
+			}
+			if st.Tag != "" {
+				stats["dags_without_model_blocks"]++
 				continue
 			}
 			if len(blocks) != len(st.Blocks) {
